@@ -481,3 +481,11 @@ def r_segflag(ctx):
     n = check_segmentation_flag(ctx, [ctx.body(n) for n in ['edit::distance', 'edit::operations', 'edit::prefix_distance']], 'edit distance')
     if n == 0:
         raise AnchorMissing('CharString::new sites of the edit distance code')
+
+
+@rule('C12', 'R-C12-5', 'prerequisite (the segmentation primitive)',
+      'CharString::new segments by graphemes(true) / chars() selected by the flag alone and keeps byte lengths at full width '
+      '(R-C11-6 re-evaluated): every index, length and range of this property is counted in its characters')
+def r_charstring(ctx):
+    from rules import c11
+    c11.charstring_primitive(ctx)
